@@ -64,7 +64,7 @@ def judge(prog: Program, ref: dict[str, Any], run: dict[str, Any]) -> list[dict[
     # dead-lettered, the outcome is unchanged); both are counted as probes in run_one
     from .dflow import one_violation
 
-    return one_violation("C02", problems, run["h"], ref["h"])
+    return one_violation("C02", problems, run["h"], ref["h"], prog=prog, fs=run["fs"])
 
 
 def _flow(ch: Choices, tier: str) -> tuple[Program, Any, Any, dict[str, Any], dict[str, Any]]:
